@@ -517,6 +517,68 @@ func execC17Client(c C17Case, bound time.Duration) (map[string]bool, error) {
 		}
 	}
 
+	if writeOp && !canComplete {
+		// the connection must be usable for WRITING again as well: the peer now drains whatever the interrupted write
+		// left in the transport, and what a write under a live context sends must arrive behind it, intact
+		marker := []byte("MARK-AFTER-INTERRUPTED-WRITE")
+		drained := make(chan []byte, 1)
+		go func() {
+			var all []byte
+			buf := make([]byte, 1<<20)
+			srv.SetReadDeadline(time.Now().Add(bound))
+			for {
+				n, rerr := srv.Read(buf)
+				all = append(all, buf[:n]...)
+				from := len(all) - n - len(marker)
+				if from < 0 {
+					from = 0
+				}
+				if rerr != nil || bytes.Contains(all[from:], marker) {
+					break
+				}
+			}
+			srv.SetReadDeadline(time.Time{})
+			drained <- all
+		}()
+		wctx, wcancel := context.WithTimeout(context.Background(), bound)
+		var werr error
+		if c.Op == "up-write" {
+			var wn int
+			wn, werr = rwc.Write(wctx, marker)
+			if werr == nil && wn != len(marker) {
+				werr = fmt.Errorf("short write: %d of %d bytes", wn, len(marker))
+			}
+		} else {
+			_, werr = cli.Send(wctx, "x.y.After", map[string]string{"m": string(marker)}, 0)
+		}
+		wcancel()
+		var all []byte
+		select {
+		case all = <-drained:
+		case <-time.After(bound + time.Second):
+			return facts, fmt.Errorf("HARNESS: the peer's drain did not finish")
+		}
+		if werr != nil {
+			if ctxOrTimeoutErr(werr) && c.Transport != "pipe" {
+				facts["inconclusive:slow-machine"] = true // (megabytes still queued in front of it on a loaded machine)
+				return facts, nil
+			}
+			return facts, fmt.Errorf("%s on %s (instant %s, %s): after the interrupted write (n=%d, %v) a write with a live context on the same connection failed: %v", c.Op, c.Transport, c.Instant, c.Trigger, res.n, res.err, werr)
+		}
+		idx := bytes.Index(all, marker)
+		if idx < 0 {
+			return facts, fmt.Errorf("%s on %s (instant %s, %s): what was written under a live context after the interrupted write never reached the peer (%d bytes received)", c.Op, c.Transport, c.Instant, c.Trigger, len(all))
+		}
+		if c.Op == "up-write" {
+			for _, b := range all[:idx] {
+				if b != 'W' && b != 0 {
+					return facts, fmt.Errorf("up-write on %s: in front of the bytes written under a live context the peer received a byte the interrupted write never contained", c.Transport)
+				}
+			}
+		}
+		facts["write-again-after-interrupted-write"] = true
+	}
+
 	// follow-up with a live context: everything the peer sends from now on must arrive, in order
 	var follow bytes.Buffer
 	var wantFrames [][]byte
